@@ -41,7 +41,7 @@ META = {"C16": {
     "assumptions": ["the two methods write disjoint persistent variables and neither reads a persistent "
                     "variable the other writes; no step-ending statements in the executed variant"],
     "probes": ["temp_clash", "loop_counter_clash", "flag_clash", "id_clash", "predicate_custom",
-               "disagree_initial", "disagree_transition", "interleaved", "handwritten_ids",
+               "disagree_initial", "disagree_transition", "interleaved", "handwritten_ids", "fusion_of_a_fusion",
                "earlier_fusion_of_same_objects"],
 }}
 
@@ -91,6 +91,41 @@ def relabel(tape, dag):
         new = [new[i] for i in tape.perm(len(new), "storage")]
         phases[pn] = ExecutionPhase(ph.name, ph.next_phase, new)
     return DAGCode(phases, dag.initial_phase)
+
+
+def check_structure(label, A, B, F, pred):
+    """Structural invariants of one fused phase (also used for fusions of fusions)."""
+    ids = [s.id for s in F]
+    if len(set(ids)) != len(ids):
+        raise Violation("ids-not-unique", "%s: fused ids %r" % (label, ids), site="nested")
+    if len(F) != len(A) + len(B):
+        raise Violation("deps-not-preserved", "%s: %d + %d statements fused into %d" % (label, len(A), len(B), len(F)),
+                        site="count")
+    FA, FB = F[:len(A)], F[len(A):]
+    for a, fa in zip(A, FA):
+        if a.id != fa.id or set(a.depends_on) != set(fa.depends_on) or str(a) != str(fa):
+            raise Violation("deps-not-preserved", "%s: first method's %s became %s: %s <- %s"
+                            % (label, a.id, fa.id, fa, sorted(fa.depends_on)), site="A")
+    newid = {b.id: fb.id for b, fb in zip(B, FB)}
+    for b_, fb in zip(B, FB):
+        want = set(newid[d] for d in b_.depends_on)
+        if set(fb.depends_on) != want or type(b_) is not type(fb):
+            raise Violation("deps-not-preserved", "%s: second method's %s (deps %r) became %s with deps %r, expected %r"
+                            % (label, b_.id, sorted(b_.depends_on), fb.id, sorted(fb.depends_on), sorted(want)),
+                            site="B")
+    nA, nB0, nFB = names_of(A), names_of(B), names_of(FB)
+    for c in sorted(nA & nB0):
+        renamed = c not in nFB
+        want_renamed = (not is_state_variable(c)) if pred is None else bool(pred(c))
+        if renamed != want_renamed:
+            cls = ("predicate-ignored" if pred is not None else
+                   "persistent-renamed" if is_state_variable(c) else "temp-clash")
+            raise Violation(cls, "%s: name %s used by both methods %s" % (
+                label, c, "was renamed" if renamed else "was not renamed"), site=_cls(c))
+    for c in sorted(nB0 - nA):
+        if c not in nFB:
+            raise Violation("predicate-ignored", "%s: name %s of the second method does not clash but was renamed"
+                            % (label, c), site=_cls(c))
 
 
 def names_of(stmts):
@@ -246,6 +281,38 @@ def run_c16(ctx):
     if set(fused.phases) != set(names) | set(only):
         raise Violation("deps-not-preserved", "fused phases %r" % sorted(fused.phases), site="phases")
 
+    # ---- fusion of a fusion (what multi-rate generators do): a third method C with its own state
+    with tape.span("nested"):
+        if variant == 0 and tape.chance(0.3, "nested"):
+            cfgC = dict(phase_names=names, next=nxt, no_advance=True, shared_ro=shared,
+                        state_num=["<state>q", "<state>qc"], state_int=["<state>l"], state_arr=["<state>c"])
+            scC = ScriptGen(tape, max_ops=4, max_depth=1, persistent_p=False, forbid=forbid, cfg=cfgC).gen()
+            try:
+                apC = apply_script(scC)
+            except Exception:
+                raise Discard("builder-exception")
+            dagC = build_dag(scC, apC)
+            if tape.chance(0.4, "relabelC"):
+                dagC = relabel(tape, dagC)
+            ctx.decoded["script_C"] = scC.text(apC.nm)
+            left = tape.chance(0.5, "nested_left")
+            X, Y = (dagC, fused) if left else (fused, dagC)
+            snapX, snapY = snapshot(X), snapshot(Y)
+            try:
+                nested = fuse_two_dags(X, Y) if pred is None else fuse_two_dags(X, Y, should_disambiguate_name=pred)
+            except Exception as e:
+                tb = traceback.extract_tb(e.__traceback__)
+                where = [f.name for f in tb if "/dagrt/" in f.filename]
+                raise Violation("fuse-exception:" + type(e).__name__, "fusing a method with a fused pair raised %r"
+                                % (e,), site=where[-1] if where else "")
+            ctx.count("probe:fusion_of_a_fusion")
+            if snapshot(X) != snapX or snapshot(Y) != snapY:
+                raise Violation("input-modified", "fuse_two_dags changed a method it was given (fusion of a fusion, "
+                                "%s)" % ("C with AB" if left else "AB with C"), site="nested")
+            for name in names:
+                check_structure("phase %s, %s" % (name, "fuse(C, fuse(A, B))" if left else "fuse(fuse(A, B), C)"),
+                                list(X.phases[name].statements), list(Y.phases[name].statements),
+                                list(nested.phases[name].statements), pred)
     nontrivial = False
     for name in names:
         A = list(dagA.phases[name].statements)
